@@ -35,7 +35,9 @@ def monStep (m : MSt) (bl : Block) : MSt × List String :=
       [if m.cap == 1 then "prop=C16 reason=torn-snapshot-with-ring-capacity-1" else "prop=C16 reason=torn-snapshot"] else []
     let f2 := if oor != 0 then ["prop=C16 reason=snapshot-older-than-last-completed-frame-or-from-the-future"] else []
     let f3 := if nblank != 0 then ["prop=C16 reason=blank-frame-returned-before-first-frame"] else []
-    let f4 := if conn == ["conn", "eof", "eof"] then [] else ["prop=C16 reason=frame-loop-stalled-or-crashed"]
+    let stalled := bl.outs.any fun o => o.head? == some "stalled"
+    let f4 := (if conn == ["conn", "eof", "eof"] then [] else ["prop=C16 reason=frame-loop-stalled-or-crashed"]) ++
+      (if stalled then ["prop=C16 reason=service-request-stalled"] else [])
     let f5 := if get "frames" "sent" == 2 * get "frames" "lastconnprocessed" then [] else ["prop=C16 reason=frames-lost-under-concurrent-requests"]
     let f6 := races.map fun r => "prop=C16 reason=data-race-" ++ "-vs-".intercalate (r.drop 1) ++
       (if m.cap == 1 then "-with-ring-capacity-1" else "")
